@@ -4,7 +4,7 @@ from vf.harness import H
 from vf.runner import Job
 from vf.mon import Mon
 from vf.axil import AxilMaster, AxilSlave, hs, valid_stable_monitor
-from vf.props.c06 import MAPS, any_
+from vf.props.c06 import MAPS, any_, pow2ceil
 
 PROPERTY = "C08"
 LEVEL = "model_checking"
@@ -90,7 +90,7 @@ class AxilIC(Mon):
             r = Constant(S, bits_for(S))
             for j in reversed(range(S)):
                 o, sz = amap[j]
-                r = Mux((a >= o) & (a < o + sz), j, r)
+                r = Mux((a >= o) & (a < o + pow2ceil(sz)), j, r)
             return r
         self.win = win
         # tagging assumptions
